@@ -147,6 +147,65 @@ theorem tie_flusher_commit_order :
       ["defer:?", "builder.Size", "builder.Close", "fmt.Errorf", "builder.FileNumber", "builder.MinKey",
        "builder.MaxKey", "builder.Size", "version.NewFileMeta", "version.CreateNewFile", "editLog.Add"] := rfl
 
+/-- the checks of `newMMapStoreReader` and `initialize`, in source order — the first two are the
+open / mmap errors (`fs` / `failing` in the model), the rest are the six branches of `Reader.openE`
+(`tooShort`, [initialize:] `badMagic`, `badFooter`, `badOffsets`, `badKeys`, `countMismatch`) — and
+every slice expression of `initialize` (`footerPos`, the three sections) -/
+theorem tie_reader_open_checks :
+    Generated.C15.readerOpenChecks =
+      ["err != nil", "err != nil", "len(data) < sstFileFooterSize", "err := reader.initialize(); err != nil",
+       "uint64Func(r.fullBlock[footerStart+magicNumberAtFooter:]) != magicNumberOffsetFile",
+       "!intsAreSortedFunc([]int{ 0, posOfOffset, posOfKeys, footerStart, })",
+       "err := unmarshalFixedOffsetFunc(r.offsets, offsetsBlock); err != nil",
+       "_, err := encoding.BitmapUnmarshal(r.keys, r.fullBlock[posOfKeys:]); err != nil",
+       "r.offsets.Size() != int(r.keys.GetCardinality())"] ∧
+    Generated.C15.readerInitSlices =
+      ["r.fullBlock[footerStart+magicNumberAtFooter:]", "r.fullBlock[footerStart : footerStart+4]",
+       "r.fullBlock[footerStart+4 : footerStart+8]", "r.fullBlock[posOfOffset:posOfKeys]",
+       "r.fullBlock[posOfKeys:]", "r.fullBlock[:posOfOffset]"] :=
+  ⟨rfl, rfl⟩
+
+/-- kv/table/cache.go statement for statement (counters left out): what `Model/TableLRU.lean`
+mirrors — a hit retains and returns the cached reader without looking at the family; a miss opens,
+retains, adds at the front, registers the family; `ReleaseReaders` / `Evict` find the entry by
+file name through `LRUCache.Get` (which moves it to the front); `Cleanup` evicts from the back
+while `ref == 0` and expired, and stops at the first entry it keeps -/
+theorem tie_reader_cache :
+    Generated.C15.cacheGetReaderStmts =
+      ["c.mutex.Lock()", "defer c.mutex.Unlock()",
+       "if entry, ok := c.cache.Get(fileName); ok { entry.retain() metrics.TableCacheStatistics.Hit.Incr() return entry.reader, nil }",
+       "path := filepath.Join(c.storePath, family, fileName)", "newReader, err := newMMapStoreReaderFunc(path, fileName)",
+       "if err != nil { return nil, err }",
+       "entry := &cacheEntry{ key: fileName, reader: newReader, family: family, fileName: fileName, }",
+       "entry.retain()", "c.cache.Add(fileName, entry)",
+       "if files, ok := c.families[family]; ok { files[fileName] = struct{}{} } else { c.families[family] = map[string]struct{}{fileName: {}} }",
+       "return newReader, nil"] ∧
+    Generated.C15.cacheReleaseStmts =
+      ["c.mutex.Lock()", "defer c.mutex.Unlock()",
+       "for _, r := range readers { if entry, ok := c.cache.Get(r.FileName()); ok { entry.release() } }"] ∧
+    Generated.C15.cacheEvictStmts =
+      ["c.mutex.Lock()", "defer c.mutex.Unlock()",
+       "if entry, ok := c.cache.Get(fileName); ok { c.evict(entry) c.cache.Remove(fileName) }"] ∧
+    Generated.C15.cacheCleanupStmts =
+      ["c.mutex.Lock()", "defer c.mutex.Unlock()", "ttl := c.ttl.Milliseconds()",
+       "c.cache.Walk(func(entry *cacheEntry) bool { if entry.ref.Load() == 0 && timeutil.Now()-entry.last > ttl { c.evict(entry) metrics.TableCacheStatistics.Evict.Incr() return true } return false })"] ∧
+    Generated.C15.cacheEvictEntryStmts =
+      ["c.closeReader(entry)", "files := c.families[entry.family]", "delete(files, entry.fileName)",
+       "if len(files) == 0 { delete(c.families, entry.family) }"] ∧
+    Generated.C15.cacheRetainStmts = ["e.ref.Inc()", "e.last = timeutil.Now()"] ∧
+    Generated.C15.cacheReleaseEntryStmts = ["e.ref.Dec()"] ∧
+    Generated.C15.lruAddStmts = ["entry := c.evictList.PushFront(value)", "c.items[key] = entry"] ∧
+    Generated.C15.lruGetStmts =
+      ["if ent, ok := c.items[key]; ok { c.evictList.MoveToFront(ent) value := ent.Value.(*cacheEntry) return value, true }",
+       "return"] ∧
+    Generated.C15.lruRemoveStmts = ["if ent, ok := c.items[key]; ok { c.removeElement(ent) }"] ∧
+    Generated.C15.lruWalkStmts =
+      ["size := len(c.items)",
+       "for i := 0; i < size; i++ { ent := c.evictList.Back() if ent != nil { entry := ent.Value.(*cacheEntry) if fn(entry) { c.removeElement(ent) } else { break } } }"] ∧
+    Generated.C15.lruRemoveElementStmts =
+      ["c.evictList.Remove(e)", "kv := e.Value.(*cacheEntry)", "delete(c.items, kv.key)"] :=
+  ⟨rfl, rfl, rfl, rfl, rfl, rfl, rfl, rfl, rfl, rfl, rfl, rfl⟩
+
 /-! ## table files -/
 
 /-- **table_get.** A table built by any well-formed mix of `Add` and stream writes can be closed
@@ -780,13 +839,16 @@ theorem shared_level_maps_lose_files :
   decide
 
 /-- `Cleanup` walks from the least recently used end and stops at the first entry it has to keep:
-table 1 (oldest, still referenced) shields table 2 (expired, unreferenced) from being closed -/
+table 1 (oldest, still referenced) shields table 2 (expired, unreferenced) from being closed; once
+table 1 is released too both go (releasing is itself a "use": it moves the entry to the front);
+an entry released once too often (ref −1) is never cleaned up and shields what lies before it -/
 theorem cleanup_stops_at_the_first_kept_entry :
     let c := TableLRU.Cache.run {} [.get 0 1 true, .get 0 2 true, .release [2]]
     c.lru.map (fun e => (e.file, e.ref)) = [(2, 0), (1, 1)] ∧
     (c.cleanup true).closed = [] ∧
-    ((c.release [1]).cleanup true).closed = [1] ∧
-    (((c.release [1]).release [2]).cleanup true).closed = [1, 0] := by decide
+    ((c.release [1]).cleanup true).closed = [0, 1] ∧
+    (((c.release [1]).release [2]).cleanup true).closed = [0] ∧
+    ((((c.release [1]).release [2]).cleanup true).lru.map (fun e => (e.file, e.ref))) = [(2, -1)] := by decide
 
 /-- the cache is keyed by the file name alone: a hit ignores the family argument and hands out the
 reader of the family that opened the name first (harmless only because table numbers are unique
